@@ -869,6 +869,48 @@ def close_cycle(recipe, ci):
     rc["cycle_pair"] = [ci, c2]
     return rc, {"comm": ci, "kind": "close-cycle", "via": c2}
 
+def close_cycle3(recipe, ci):
+    """Like close_cycle, but the cycle runs through three ranks:
+    c1 = a -> b (the live comm *ci*), c2 = b -> c carrying data computed from
+    c1, c3 = c -> a carrying data computed from c2, and c1's payload additionally
+    depends on c3.  Needs a third rank."""
+    n = recipe["nranks"]
+    rc = copy.deepcopy(recipe)
+    c1 = rc["comms"][ci]
+    a, b = c1["src"], c1["dst"]
+    others = [q for q in range(n) if q not in (a, b)]
+    if not others:
+        return None
+    c = others[0]
+    vals = rc["vals"]
+    tagid = 1 + max([x["tag"][1] for x in rc["comms"]] + [0])
+
+    def out_of(rank):
+        return [oi for oi, o in enumerate(rc["outs"]) if o["rank"] == rank][0]
+    vals.append({"rank": b, "op": "addc", "args": [c1["recv_val"]],
+                 "p": {"c": 1}, "stored": False})
+    v_b = len(vals) - 1
+    vals.append({"rank": c, "op": "recv", "args": [],
+                 "p": {"comm": len(rc["comms"])}, "stored": False})
+    r_c = len(vals) - 1
+    rc["comms"].append({"src_val": v_b, "src": b, "dst": c,
+                        "tag": ["int", tagid], "recv_val": r_c,
+                        "staple": ["out", out_of(b)]})
+    c2 = len(rc["comms"]) - 1
+    vals.append({"rank": c, "op": "addc", "args": [r_c], "p": {"c": 2},
+                 "stored": False})
+    v_c = len(vals) - 1
+    vals.append({"rank": a, "op": "recv", "args": [],
+                 "p": {"comm": len(rc["comms"])}, "stored": False})
+    r_a = len(vals) - 1
+    rc["comms"].append({"src_val": v_c, "src": c, "dst": a,
+                        "tag": ["int", tagid + 1], "recv_val": r_a,
+                        "staple": ["out", out_of(c)]})
+    c3 = len(rc["comms"]) - 1
+    rc["cycle_pair"] = [ci, c3]
+    rc["cycle_chain"] = [ci, c2, c3]
+    return rc, {"comm": ci, "kind": "close-cycle", "via": c3}
+
 # }}}
 
 
